@@ -120,14 +120,14 @@ PROPS["C01"] = {
 }
 PROPS["C06"] = {
     "level": "proof",
-    "technique": "Verus spec-level lemma over the proved-equal rule spec: acceptance under stricter flags implies identical acceptance under laxer flags (per condition)",
-    "level_text": "Deductive proof of the per-condition half of the statement: for every tree, opcode and pair of flag words where one is at least as strict, strict acceptance implies lenient acceptance with the identical parsed condition. The bundle-level lifting and permutation invariance depend on the tier-2 unit and are listed as not covered.",
-    "level_note": "Inherits C01's assumptions. LIMIT_SPENDS and ordering claims are not yet under contract.",
-    "components": [V("conditions_parse")],
-    "assumptions": ["inherits C01 (conditions_parse unit)"],
+    "technique": "Verus spec-level lemmas over the proved-equal rule spec - per condition (parse_args_spec) and per condition list (run_list, by induction) acceptance under stricter flags implies identical acceptance under laxer flags - on top of the contracts that tie parse_args / parse_conditions / validate_conditions to those specs; native evaluation of ground relations between runs (strict vs lenient, permutations) of the real parser",
+    "level_text": "Deductive proof: for every tree, opcode and pair of flag words that differ only in strictness flags, strict acceptance of a condition implies lenient acceptance with the identical parsed condition (lemma_strict_only_restricts), and the same for a whole condition list with the identical summary (lemma_run_list_strict_only_restricts, induction over the list); parse_args and parse_conditions are proved equal to those specs (units conditions_parse, conditions_effects), and the deferred checks are proved to be a function of order-insensitive sets, sums and extrema (unit validate_conds, iff). Order independence itself is not a machine-checked lemma: it is decided on 378 ground relations (reversed / rotated / interleaved condition orders, swapped spends, each strictness subset x fork flags) over fixed bundles with boundary multiplicities (127/128/129 identical messages, 1023/1024/1025 announcements, 5999/6000/6001 spends).",
+    "level_note": "Inherits C01's assumptions. The spec's aggregates are maxima, minima, sums and set insertions, which is why order cannot matter; that commutation argument over the spec (36 x 36 condition kinds) exceeded the solver's resource limit and is not claimed.",
+    "components": [V("conditions_parse"), V("conditions_effects"), V("validate_conds"), N("native_relations_ground", "relations_ground")],
+    "assumptions": ["inherits C01 (conditions_parse / conditions_effects units)"],
     "not_covered": [
-        "lifting through parse_conditions/parse_spends (LIMIT_SPENDS exit, NO_UNKNOWN_CONDS at the opcode dispatch)",
-        "permutation invariance of acceptance, cost and aggregates (needs the tier-2 summary spec)",
+        "permutation invariance as a machine-checked lemma over the summary spec (only ground relations)",
+        "LIMIT_SPENDS exit of parse_spends / run_spendbundle and the bundle-level lifting across spends (ground relations only)",
     ],
 }
 
